@@ -48,6 +48,26 @@ def run(rep, ctx):
     if rebuild:
         failures.append(dict(case=dict(kind="in-process-rebuild", run_indices=rebuild[:10], verif_seed=ctx["seed"], n=n),
                              what="%d traces differ between two in-process builds of the same machine" % len(rebuild), signature=None))
+    # generated identifiers (actor uuids) must not influence who receives what: repeat actor scenarios, compare
+    from concurrent.futures import ProcessPoolExecutor
+    from harness import actors
+    from harness.props import c15
+    import random as _r
+    arng = _r.Random(ctx["seed"] * 7919 + 16)
+    acases = [(sc, eng, 3) for sc in actors.directed_scenarios() for eng in ("sync", "async")]
+    for i in range(120 if big else 30):
+        acases.append((actors.random_scenario(arng, 8, rich=False), ("sync", "async")[i % 2], 3))
+    reps = 4
+    with ProcessPoolExecutor(max_workers=14) as ex:
+        ares = list(ex.map(actors.run_impl_case, [c for c in acases for _ in range(reps)], chunksize=4))
+    differing = 0
+    for i, c in enumerate(acases):
+        outs = [[t[1] for t in r["snaps"][-1]] for r in ares[i * reps:(i + 1) * reps]]
+        if any(o != outs[0] for o in outs[1:]):
+            differing += 1
+            failures.append(dict(case=dict(kind="actor-rerun", steps=c[0], engine=c[1], max_iter=c[2]),
+                                 what="the same actor scenario, run %d times in fresh processes' worth of generated actor ids, ended differently: "
+                                      "a generated identifier influenced addressing" % reps, signature=None))
     total = len(ref[1]) if ref else 0
     rep.coverage.update(evaluations=total * len(seeds), distinct_nontrivial=total,
                         rule="random machines with history and parallel regions, history machines (C11 family) and completion machines (C10 family); "
@@ -56,7 +76,8 @@ def run(rep, ctx):
                              "order included, un-canonicalised) compared byte for byte; distinct = runs" % len(seeds),
                         samples=[dict(hashseeds=seeds, runs=total, first_digests=(ref[1][:3] if ref else []))],
                         traces_validated_against_impl=total * len(seeds),
-                        components={"hash-seed-runs": dict(seeds=seeds, runs_per_seed=total, differing=sum(len(f["case"].get("run_indices", [])) for f in failures))})
+                        components={"actor-reruns": dict(scenarios=len(acases), repetitions=reps, differing=differing),
+                                    "hash-seed-runs": dict(seeds=seeds, runs_per_seed=total, differing=sum(len(f["case"].get("run_indices", [])) for f in failures))})
     core.decide(rep, ctx["proof"], disagreements, failures, None)
     rep.assumptions += ["hash-seed and heap-layout independence of the Python process is observed by repeated execution; the theorems are about the "
                         "model's iteration oracle (every set iteration site is followed by a sort with a total order)"]
@@ -64,6 +85,13 @@ def run(rep, ctx):
 
 def replay(payload):
     c = payload.get("case", {})
+    if c.get("kind") == "actor-rerun":
+        from harness import actors
+        steps = [tuple(s[:3]) + ([tuple(o) for o in s[3]],) if s[0] == "do" else tuple(s) for s in c["steps"]]
+        outs = [[t[1] for t in actors.run_impl_case((steps, c["engine"], c.get("max_iter")))["snaps"][-1]] for _ in range(6)]
+        for o in outs:
+            print(o)
+        return 1 if any(o != outs[0] for o in outs[1:]) else 0
     print("rerun under two hash seeds and diff:", c)
     a, _ = worker(c.get("seeds", [1, 2])[0], c.get("verif_seed", 0), c.get("n", 60))
     b, _ = worker(c.get("seeds", [1, 2])[-1], c.get("verif_seed", 0), c.get("n", 60))
